@@ -174,8 +174,10 @@ class Evidence:
         doc = {"property_id": self.prop, "tier": self.tier, "seed": int(self.seed), "level": self.level,
                "coverage": cov, "assumptions": self.assumptions,
                "wall_s": round(time.time() - self.t0, 2), "violations": int(self.violations)}
-        os.makedirs(os.path.join(VERIF, "evidence"), exist_ok=True)
-        p = os.path.join(VERIF, "evidence", self.prop + ".json")
+        # (VERIF_EVIDENCE_DIR: exploratory runs against a scratch copy of the repository must not overwrite the evidence of /repo)
+        edir = os.environ.get("VERIF_EVIDENCE_DIR") or os.path.join(VERIF, "evidence")
+        os.makedirs(edir, exist_ok=True)
+        p = os.path.join(edir, self.prop + ".json")
         tmp = p + ".tmp"
         with open(tmp, "w") as f:
             json.dump(doc, f, indent=1, default=str)
